@@ -349,29 +349,171 @@ theorem frontOf_slot (p : Prog) (st : LoopSt) (j e : Nat) (hj : st.redirects[j]?
   · simp [List.getElem?_append_right, hj, Nat.add_comm]
   · simp [hj]
 
+/-- Explicit form: the byte stored for `c` unpacks to `offset + e`, and the packed table is
+`front ++ instrs ++ post` with `front.length = offset`. -/
+theorem pack_entry_explicit {p : Prog} {entries : List (Nat × Nat)} {P : Prog} {pe : List (Nat × Nat)}
+    (h : pack p entries = some (P, pe)) (hwf : wf p entries = true)
+    (hnd : (entries.map (·.1)).Nodup) :
+    ∃ st, Good p.rb.isSome st [] ∧ (frontOf p st).length = st.offset ∧
+      P = { instrs := frontOf p st ++ p.instrs ++ postOf p st, lb := p.lb.map (· + st.offset), rb := p.rb } ∧
+      pe.map (·.1) = entries.map (·.1) ∧
+      ∀ ce ∈ entries, ∃ u, lookup pe ce.1 = some u ∧ u ≤ 255 ∧
+        unpackEntry P.instrs u = some (st.offset + ce.2) := by
+  obtain ⟨st, _, hg, _, hpe, hP, hlen⟩ := pack_shape h
+  obtain ⟨hnr, hcl, hent, _⟩ := wf_parts hwf
+  refine ⟨st, hg, hlen, hP, (mapEntries_spec hpe).1, ?_⟩
+  intro ce hce
+  obtain ⟨u, hu1, hu2⟩ := (mapEntries_spec hpe).2 hnd ce hce
+  have he := hent ce hce
+  have hPi : P.instrs = frontOf p st ++ p.instrs ++ postOf p st := by rw [hP]
+  rw [hPi, ← hlen]
+  rcases hg.asg ce.2 u (lookup_mem hu2) with ⟨h1, h2, _⟩ | ⟨j, h1, h2, h3⟩
+  · -- direct
+    have hu : u = (frontOf p st).length + ce.2 := by omega
+    refine ⟨u, hu1, h2, ?_⟩
+    rw [hu]; exact unpackEntry_direct _ _ _ _ he hnr
+  · -- redirected
+    have hslot := frontOf_slot p st j ce.2 h2
+    rw [← h1, ← hlen] at hslot
+    exact ⟨u, hu1, h3, unpackEntry_slot _ _ _ _ _ _ he hslot⟩
+
 /-- **pack_preserves**, per character. -/
 theorem pack_preserves_entry {p : Prog} {entries : List (Nat × Nat)} {P : Prog} {pe : List (Nat × Nat)}
     (h : pack p entries = some (P, pe)) (hwf : wf p entries = true)
     (hnd : (entries.map (·.1)).Nodup) :
     ∀ ce ∈ entries, entryOk p.instrs P.instrs pe ce = true := by
-  obtain ⟨st, _, hg, _, hpe, hP, hlen⟩ := pack_shape h
-  obtain ⟨hnr, hcl, hent, _⟩ := wf_parts hwf
+  obtain ⟨st, _, hlen, hP, _, hex⟩ := pack_entry_explicit h hwf hnd
+  obtain ⟨_, hcl, hent, _⟩ := wf_parts hwf
   intro ce hce
-  obtain ⟨u, hu1, hu2⟩ := (mapEntries_spec hpe).2 hnd ce hce
-  have he := hent ce hce
+  obtain ⟨u, hu1, hu2, hu3⟩ := hex ce hce
+  refine entryOk_of hu1 hu2 hu3 ?_
   have hPi : P.instrs = frontOf p st ++ p.instrs ++ postOf p st := by rw [hP]
-  rw [hPi]
-  rcases hg.asg ce.2 u (lookup_mem hu2) with ⟨h1, h2, _⟩ | ⟨j, h1, h2, h3⟩
-  · -- direct
-    have hu : u = (frontOf p st).length + ce.2 := by omega
-    refine entryOk_of hu1 h2 (e' := u) ?_ ?_
-    · rw [hu]; exact unpackEntry_direct _ _ _ _ he hnr
-    · rw [hu]; exact chain_embedded _ _ _ _ hcl he
-  · -- redirected
-    have hslot := frontOf_slot p st j ce.2 h2
-    rw [← h1, ← hlen] at hslot
-    refine entryOk_of hu1 h3 (e' := (frontOf p st).length + ce.2) ?_ ?_
-    · exact unpackEntry_slot _ _ _ _ _ _ he hslot
-    · exact chain_embedded _ _ _ _ hcl he
+  rw [hPi, ← hlen]
+  exact chain_embedded _ _ _ _ hcl (hent ce hce)
+
+/-! ### Totality: at most 256 distinct entry points never overflow the slot byte -/
+
+theorem good_direct {rbSome : Bool} {st : LoopSt} {e : Nat} {rest : List Nat}
+    (hg : Good rbSome st (e :: rest)) (hlt : ∀ e' ∈ rest, e' < e) (hfit : e + st.offset ≤ 255) :
+    Good rbSome { st with assign := (e, e + st.offset) :: st.assign } rest := by
+  refine ⟨hg.inv, ?_⟩
+  intro e0 u0 hm
+  simp only [List.mem_cons, Prod.mk.injEq] at hm
+  rcases hm with ⟨rfl, rfl⟩ | hm
+  · exact Or.inl ⟨rfl, hfit, hlt⟩
+  · rcases hg.asg e0 u0 hm with ⟨h1, h2, h3⟩ | hr
+    · exact Or.inl ⟨h1, h2, fun e' he' => h3 e' (List.mem_cons_of_mem _ he')⟩
+    · exact Or.inr hr
+
+theorem good_redirect {rbSome : Bool} {st : LoopSt} {e : Nat} {rest : List Nat}
+    (hg : Good rbSome st (e :: rest)) (hnofit : ¬ e + st.offset ≤ 255) (hoff : st.offset ≤ 255) :
+    Good rbSome (LoopSt.mk (st.offset + 1) (st.redirects ++ [e]) ((e, st.offset) :: st.assign) st.popped) rest := by
+  refine ⟨?_, ?_⟩
+  · have := hg.inv
+    simp only [cc] at this ⊢
+    simp only [List.length_append, List.length_cons, List.length_nil]
+    omega
+  · intro e0 u0 hm
+    simp only [List.mem_cons, Prod.mk.injEq] at hm
+    rcases hm with ⟨rfl, rfl⟩ | hm
+    · refine Or.inr ⟨st.redirects.length, ?_, ?_, hoff⟩
+      · have := hg.inv
+        simp only [cc] at this ⊢
+        omega
+      · simp
+    · rcases hg.asg e0 u0 hm with ⟨h1, h2, h3⟩ | ⟨j, h1, h2, h3⟩
+      · exfalso
+        have := h3 e (List.mem_cons_self ..)
+        omega
+      · refine Or.inr ⟨j, ?_, ?_, h3⟩
+        · simpa [cc] using h1
+        · have hj : j < st.redirects.length := (List.getElem?_eq_some_iff.mp h2).1
+          rw [List.getElem?_append_left hj]
+          exact h2
+
+/-- From pass `k+1` on: as long as no direct assignment has been made the offset is at most
+the number of passes, so the slot number fits a byte while `k + 1 + |rest| ≤ 256`. -/
+theorem packLoop_total (rbSome : Bool) (ds : List Nat) :
+    ∀ (k : Nat) (st : LoopSt), ds.Pairwise (· > ·) → Good rbSome st ds →
+      (st.offset ≤ k + 1 ∨ ∃ e u, (e, u) ∈ st.assign ∧ u = e + st.offset ∧ u ≤ 255 ∧ ∀ e' ∈ ds, e' < e) →
+      k + 1 + ds.length ≤ 256 → ∃ st', packLoop rbSome (k + 1) ds st = some st' := by
+  induction ds with
+  | nil => intro k st _ _ _ _; exact ⟨st, by simp [packLoop]⟩
+  | cons e rest ih =>
+    intro k st hs hg hd hlen
+    have hs' := List.pairwise_cons.mp hs
+    simp only [List.length_cons] at hlen
+    simp only [packLoop]
+    split
+    · rename_i hfit
+      apply ih (k + 1) _ hs'.2 (good_direct hg (fun e' he' => hs'.1 e' he') hfit)
+      · exact Or.inr ⟨e, e + st.offset, List.mem_cons_self .., rfl, hfit, fun e' he' => hs'.1 e' he'⟩
+      · omega
+    · rename_i hnofit
+      have hk0 : (k + 1 == 0) = false := by simp
+      simp only [hk0, Bool.false_and, Bool.false_eq_true, if_false, Bool.or_false]
+      have hoff : st.offset ≤ k + 1 := by
+        rcases hd with hd | ⟨e0, u0, _, h1, h2, h3⟩
+        · exact hd
+        · exfalso
+          have := h3 e (List.mem_cons_self ..)
+          omega
+      have hoff' : st.offset ≤ 255 := by omega
+      simp only [hoff', if_true]
+      apply ih (k + 1) _ hs'.2 (good_redirect hg hnofit hoff')
+      · exact Or.inl (by simp only; omega)
+      · omega
+
+theorem packLoop_zero_total (rbSome : Bool) (ds : List Nat) (hs : ds.Pairwise (· > ·))
+    (hlen : ds.length ≤ 256) : ∃ st', packLoop rbSome 0 ds (initSt rbSome) = some st' := by
+  cases ds with
+  | nil => exact ⟨initSt rbSome, by simp [packLoop]⟩
+  | cons e rest =>
+    have hs' := List.pairwise_cons.mp hs
+    simp only [List.length_cons] at hlen
+    have hg0 : Good rbSome (initSt rbSome) (e :: rest) := by
+      refine ⟨by cases rbSome <;> simp [cc, initSt], ?_⟩
+      intro e0 u0 hm; simp [initSt] at hm
+    simp only [packLoop]
+    split
+    · rename_i hfit
+      apply packLoop_total rbSome rest 0 _ hs'.2 (good_direct hg0 (fun e' he' => hs'.1 e' he') hfit)
+      · exact Or.inr ⟨e, e + (initSt rbSome).offset, List.mem_cons_self .., rfl, hfit, fun e' he' => hs'.1 e' he'⟩
+      · omega
+    · have h00 : ((0 : Nat) == 0) = true := by simp
+      simp only [h00, Bool.true_and]
+      have hoff0 : (if rbSome = true then 0 else (initSt rbSome).offset) = 0 := by
+        cases rbSome <;> simp [initSt]
+      simp only [hoff0, Nat.zero_le, if_true, Nat.zero_add]
+      have hg1 : Good rbSome (LoopSt.mk 1 ((initSt rbSome).redirects ++ [e]) ((e, 0) :: (initSt rbSome).assign) ((initSt rbSome).popped || rbSome)) rest := by
+        refine ⟨?_, ?_⟩
+        · cases rbSome <;> simp [cc, initSt]
+        · intro e0 u0 hm
+          simp only [initSt, List.mem_cons, Prod.mk.injEq, List.not_mem_nil, or_false] at hm
+          obtain ⟨rfl, rfl⟩ := hm
+          refine Or.inr ⟨0, ?_, ?_, by omega⟩
+          · cases rbSome <;> simp [cc, initSt]
+          · simp [initSt]
+      apply packLoop_total rbSome rest 0 _ hs'.2 hg1
+      · exact Or.inl (by simp)
+      · omega
+
+/-- **pack_total**: with at most 256 distinct entry points (there are only 256 characters)
+`pack_entrypoints` (with fix C11-a) does not panic. -/
+theorem pack_total_aux (p : Prog) (entries : List (Nat × Nat))
+    (hlen : (descDistinct (entries.map (·.2))).length ≤ 256) : ∃ r, pack p entries = some r := by
+  obtain ⟨st, hst⟩ := packLoop_zero_total p.rb.isSome _ (descDistinct_sorted _) hlen
+  obtain ⟨_, hkeys⟩ := packLoop_zero _ _ _ (descDistinct_sorted _) hst
+  have hall : ∀ ce ∈ entries, ce.2 ∈ st.assign.map (·.1) := by
+    intro ce hce
+    apply hkeys
+    rw [mem_descDistinct]
+    exact List.mem_map_of_mem hce
+  obtain ⟨pe, hpe⟩ := mapEntries_total hall
+  have hst' : packLoop p.rb.isSome 0 (descDistinct (entries.map (·.2)))
+      { offset := if p.rb.isSome then 1 else 0, redirects := [], assign := [], popped := false } = some st := by
+    simpa [initSt] using hst
+  simp only [pack, hst', hpe]
+  exact ⟨_, rfl⟩
 
 end C11
